@@ -55,6 +55,16 @@ def make_world(seed, mode, n_groups):
     return w, truth, groups
 
 
+# (gene, transcript) quantification strategies of a job: the grouped tables of a level follow THAT level's strategy
+STRAT_PAIRS = [("with_ambiguous", "with_ambiguous"), ("all", "unique_only"), ("unique_inconsistent", "with_ambiguous"), ("with_ambiguous", "all"),
+               ("unique_only", "unique_inconsistent")]
+
+
+def strategies_of(job):
+    seed, mode, fmt, hs, threads, ng = job
+    return STRAT_PAIRS[(seed + hs + ng) % len(STRAT_PAIRS)]
+
+
 def run(chk, scratch):
     thorough = chk.tier == "thorough"
     chk.rule = ("worlds with 2-12 group names (chosen so that set iteration order differs from sorted order), ~6% ungroupable reads (missing tag / "
@@ -84,7 +94,8 @@ def run(chk, scratch):
         os.makedirs(d)
         w.write_fasta(os.path.join(d, "g.fa"))
         w.write_gtf(os.path.join(d, "a.gtf"))
-        extra = ["--counts_format", fmt, "--gene_quantification", "with_ambiguous", "--transcript_quantification", "with_ambiguous", "--count_exons"]
+        gs, ts = strategies_of(job)
+        extra = ["--counts_format", fmt, "--gene_quantification", gs, "--transcript_quantification", ts, "--count_exons"]
         bams = None
         if mode == "file_name":
             nf = min(ng, 3)
@@ -126,7 +137,7 @@ def run(chk, scratch):
     cells = 0
     for job, d, w, truth, out, r in runner.parallel(one, jobs, workers=8):
         seed, mode, fmt, hs, threads, ng = job
-        desc = "world=%d mode=%s format=%s hashseed=%d threads=%d groups=%d%s" % (seed, mode, fmt, hs, threads, ng, " [killed while the group table was split, resumed]" if r.get("resumed") else "")
+        desc = "world=%d mode=%s format=%s hashseed=%d threads=%d groups=%d strategies=%s/%s%s" % ((seed, mode, fmt, hs, threads, ng) + strategies_of(job) + (" [killed while the group table was split, resumed]" if r.get("resumed") else "",))
         if r.get("resumed"):
             chk.count("killed_and_resumed_runs_judged")
         wit = {"world_seed": seed, "mode": mode, "format": fmt, "hashseed": hs, "threads": threads, "groups": ng}
@@ -143,7 +154,7 @@ def run(chk, scratch):
         expected_groups = sorted(set(truth[rc_["read"]] for rc_ in recs if rc_["read"] in truth) |
                                  set(truth.values()))
         for level, fname in (("gene", "gene"), ("transcript", "transcript")):
-            table, per_read, stats = weights.expected_table(recs, level, "with_ambiguous", group_of=lambda rid: truth.get(rid, "NA"))
+            table, per_read, stats = weights.expected_table(recs, level, strategies_of(job)[0 if level == "gene" else 1], group_of=lambda rid: truth.get(rid, "NA"))
             ungrouped = o.counts(fname + "_counts.tsv")
             matrix = None
             linear = None
@@ -228,7 +239,8 @@ def run(chk, scratch):
                 g_ = truth.get(read, "NA")
                 multi += len(ms) > 1
                 for m in ms:
-                    exp_m[m][g_] += Fraction(1, len(ms))
+                    # a read listed for several models counts 1/k under a transcript strategy that admits ambiguous reads, otherwise nothing
+                    exp_m[m][g_] += Fraction(1, len(ms)) if (len(ms) == 1 or weights.admits(strategies_of(job)[1])["ambiguous"]) else Fraction(0)
             chk.count("reads_listed_for_several_models", multi)
             triples = []
             if fmt in ("both", "matrix") and parse.exists(o.path("transcript_model_grouped_counts.tsv")):
@@ -316,6 +328,6 @@ def run(chk, scratch):
         shutil.rmtree(d, ignore_errors=True)
     chk.extra["cells_checked"] = cells
     chk.assumptions = ["documented grouping: tag value / last piece of the read id split by the delimiter / table entry / file label; NA when none",
-                       "weights as in C02 (strategy with_ambiguous for both levels); worlds without multi-mapped reads"]
+                       "weights as in C02 (the gene and the transcript strategy differ in most jobs); worlds without multi-mapped reads"]
     chk.inconclusive_if(cells == 0, "no grouped cell checked")
     chk.min_nontrivial = 3
